@@ -380,6 +380,24 @@ class C16Objects:
                 if obj.depth == 0:
                     pm = obj.public_master()
                     self.check_public_object(pm, 'HDKey.public_master()', primed)
+                # keys derived along a public-derivation path ('M/...') of the private key
+                mp = self.ch.pick('m_path', ["M/0'", "M/84'/0'/0'", 'M/0/1', 'M', "M/44'/0'", "M/0/1/2'"])
+                try:
+                    sub = obj.subkey_for_path(mp)
+                except StopRun:
+                    raise
+                except Exception as e:
+                    sub = None
+                    w.probe('view_raised:subkey_for_path:%s' % type(e).__name__)
+                if sub is not None:
+                    self.check_public_object(sub, "HDKey.subkey_for_path('M...')", primed + [mp])
+                    for name, fn in [('wif()', sub.wif), ('as_dict()', sub.as_dict), ('repr', lambda: repr(sub))]:
+                        try:
+                            self.check_text(fn(), "HDKey.subkey_for_path('M...').%s" % name, primed + [mp])
+                        except StopRun:
+                            raise
+                        except Exception as e:
+                            w.probe('view_raised:%s' % type(e).__name__)
                 # the public key again after more priming of the public object
                 pub2 = obj.public()
                 try:
